@@ -9,6 +9,7 @@ import (
 	"os"
 	"sort"
 	"strings"
+	"sync"
 
 	"golang.org/x/tools/go/packages"
 	"golang.org/x/tools/go/ssa"
@@ -35,6 +36,8 @@ type World struct {
 	specDefs       map[string]string
 	trustedPure    map[string]bool
 	freshOverrides map[string]*freshOverride
+	immMu          sync.Mutex
+	immutables     map[string]*immutableDecl
 	macros         map[string]*Macro
 	curProp        string            // property being checked ("" in development mode: every clause)
 	specConsts     map[string]string // constant strings used by spec functions: content -> ref
@@ -56,7 +59,7 @@ func (w *World) constID(key string) int {
 func loadWorld(repo string, patterns []string) (*World, error) {
 	w := &World{contracts: map[string]*Contract{}, ghosts: map[string]*GhostVar{}, specFuncs: map[string]*SpecFunc{},
 		lemmas: map[string]*Lemma{}, constIDs: map[string]int{}, files: map[*token.File]*ast.File{},
-		srcCache: map[string][]byte{}, allPkgs: map[string]*packages.Package{}, repo: repo, trustedPure: map[string]bool{}, freshOverrides: map[string]*freshOverride{}, macros: map[string]*Macro{}, specConsts: map[string]string{}}
+		srcCache: map[string][]byte{}, allPkgs: map[string]*packages.Package{}, repo: repo, trustedPure: map[string]bool{}, freshOverrides: map[string]*freshOverride{}, immutables: map[string]*immutableDecl{}, macros: map[string]*Macro{}, specConsts: map[string]string{}}
 	w.fset = token.NewFileSet()
 	cfg := &packages.Config{Mode: packages.LoadAllSyntax, Dir: repo, BuildFlags: []string{"-tags=verif"}, Fset: w.fset,
 		Env: append(os.Environ(), "GOFLAGS=-mod=mod", "GOPROXY=off", "GOSUMDB=off", "GOTOOLCHAIN=local")}
@@ -574,4 +577,72 @@ func (w *World) zeroGlobal(g *ssa.Global) bool {
 		}
 	}
 	return false
+}
+
+// ---------------------------------------------------------------------------
+// immutable fields
+// ---------------------------------------------------------------------------
+
+type immutableDecl struct {
+	Key, Reason string
+	checked, ok bool
+	why         string
+}
+
+// immutableOK: is the heap component a field declared immutable, and does the module bear that out? The check
+// is syntactic over the SSA of every function of the loaded program: a store to the field, or a store of a whole
+// value of its struct type, is allowed only when the target object is an allocation of the same function (the
+// object under construction). reflect/unsafe writes and struct values embedded by value in other structs are
+// outside the check (stated in the evidence). A violated declaration is ignored (the field is havocked like any
+// other), so the obligations that relied on it fail.
+func (w *World) immutableOK(comp string) (bool, *immutableDecl) {
+	if !strings.HasPrefix(comp, "F:") {
+		return false, nil
+	}
+	d, ok := w.immutables[strings.TrimPrefix(comp, "F:")]
+	if !ok {
+		return false, nil
+	}
+	w.immMu.Lock()
+	defer w.immMu.Unlock()
+	if d.checked {
+		return d.ok, d
+	}
+	d.checked, d.ok = true, true
+	i := strings.LastIndex(d.Key, ".")
+	tkey, fname := d.Key[:i], d.Key[i+1:]
+	fresh := func(v ssa.Value) bool {
+		_, ok := v.(*ssa.Alloc)
+		return ok
+	}
+	found := false
+	for fn := range ssautil.AllFunctions(w.prog) {
+		for _, b := range fn.Blocks {
+			for _, ins := range b.Instrs {
+				st, ok := ins.(*ssa.Store)
+				if !ok {
+					continue
+				}
+				if fa, ok := st.Addr.(*ssa.FieldAddr); ok {
+					if pt, ok := fa.X.Type().Underlying().(*types.Pointer); ok && structKey(pt.Elem()) == tkey {
+						if stt, ok := pt.Elem().Underlying().(*types.Struct); ok && stt.Field(fa.Field).Name() == fname {
+							found = true
+							if !fresh(fa.X) {
+								d.ok, d.why = false, "written in "+fn.String()+" at "+w.fset.Position(st.Pos()).String()
+							}
+						}
+					}
+				}
+				if structKey(st.Val.Type()) == tkey && !fresh(st.Addr) {
+					if _, isStruct := st.Val.Type().Underlying().(*types.Struct); isStruct {
+						d.ok, d.why = false, "whole value overwritten in "+fn.String()+" at "+w.fset.Position(st.Pos()).String()
+					}
+				}
+			}
+		}
+	}
+	if !found && d.ok {
+		d.ok, d.why = false, "no such field is written anywhere (misspelt declaration?)"
+	}
+	return d.ok, d
 }
